@@ -9,6 +9,7 @@ import (
 	"sync"
 	"sync/atomic"
 
+	"github.com/iotaledger/hive.go/runtime/options"
 	"github.com/iotaledger/hive.go/runtime/workerpool"
 	"verif/harness/internal/gdump"
 )
@@ -27,6 +28,7 @@ type stressCfg struct {
 	Nest       int   `json:"nest"`
 	Cycles     int   `json:"cycles"`
 	NoWait     bool  `json:"restart_without_wait"` // controller calls Shutdown(); Start() without ShutdownComplete.Wait() in between
+	AllBusy    bool  `json:"all_busy"`             // pool 0: every worker is held in a task until the controller has entered its first Shutdown; the tasks then call back into the pool
 }
 
 func genStress(seed int64, run int, race bool) stressCfg {
@@ -34,8 +36,9 @@ func genStress(seed int64, run int, race bool) stressCfg {
 	c := stressCfg{Seed: seed, Run: run, Race: race}
 	c.Pools = 1 + rng.Intn(3)
 	c.Group = rng.Intn(3) == 0
+	counts := append([]int{1, 2, 3, 4, 5, 8}, bigWorkerCounts()...)
 	for i := 0; i < c.Pools; i++ {
-		c.Workers = append(c.Workers, 1+rng.Intn(8))
+		c.Workers = append(c.Workers, counts[rng.Intn(len(counts))])
 	}
 	c.Cancel = rng.Intn(2) == 0
 	c.Submitters = 1 + rng.Intn(8)
@@ -43,6 +46,9 @@ func genStress(seed int64, run int, race bool) stressCfg {
 	c.Nest = rng.Intn(3)
 	c.Cycles = rng.Intn(4)
 	c.NoWait = rng.Intn(4) == 0
+	if c.AllBusy = rng.Intn(3) == 0; c.AllBusy {
+		c.Cycles = max(c.Cycles, 1)
+	}
 	return c
 }
 
@@ -64,6 +70,7 @@ type stressResult struct {
 	Hits      [3]int64  `json:"yield_hits"`
 	Stuck     string    `json:"stuck,omitempty"`
 	GrpWaits  int64     `json:"group_waits_returned"`
+	AllBusyAtShutdown bool `json:"all_workers_busy_when_shutdown_was_called"`
 }
 
 type spool struct {
@@ -107,12 +114,20 @@ func runStress(cfg stressCfg) (res stressResult) {
 			if i%2 == 1 {
 				g = sub
 			}
-			p := g.CreatePool(fmt.Sprintf("p%d", i), workerpool.WithWorkerCount(cfg.Workers[i]), workerpool.WithCancelPendingTasksOnShutdown(cfg.Cancel))
+			opts := []options.Option[workerpool.WorkerPool]{workerpool.WithCancelPendingTasksOnShutdown(cfg.Cancel)}
+			if cfg.Workers[i] > 0 {
+				opts = append(opts, workerpool.WithWorkerCount(cfg.Workers[i]))
+			}
+			p := g.CreatePool(fmt.Sprintf("p%d", i), opts...)
 			pools = append(pools, &spool{pool: p})
 		}
 	} else {
 		for i := 0; i < cfg.Pools; i++ {
-			p := workerpool.New(fmt.Sprintf("p%d", i), workerpool.WithWorkerCount(cfg.Workers[i]), workerpool.WithCancelPendingTasksOnShutdown(cfg.Cancel))
+			opts := []options.Option[workerpool.WorkerPool]{workerpool.WithCancelPendingTasksOnShutdown(cfg.Cancel)}
+			if cfg.Workers[i] > 0 {
+				opts = append(opts, workerpool.WithWorkerCount(cfg.Workers[i]))
+			}
+			p := workerpool.New(fmt.Sprintf("p%d", i), opts...)
 			pools = append(pools, &spool{pool: p})
 		}
 	}
@@ -121,7 +136,7 @@ func runStress(cfg stressCfg) (res stressResult) {
 		p.pool.Start()
 	}
 
-	maxTasks := cfg.Submitters * cfg.PerSub * 4
+	maxTasks := cfg.Submitters*cfg.PerSub*4 + 2*effWorkers(cfg.Workers[0]) + 8
 	recs := make([]sTask, maxTasks)
 	var next, submitCalls, notRunning atomic.Int64
 	var overlap atomic.Bool
@@ -167,8 +182,47 @@ func runStress(cfg stressCfg) (res stressResult) {
 		p.mu.Unlock()
 	}
 
-	var subsLeft atomic.Int64
 	var subsDone atomic.Bool
+	var ctrlStage atomic.Value
+	ctrlStage.Store("")
+	busyGate := make(chan struct{})
+	var busyStarted atomic.Int64
+	var allBusyAtShutdown atomic.Bool
+	if cfg.AllBusy {
+		p0 := pools[0]
+		nw := p0.pool.WorkerCount()
+		for k := 0; k < nw; k++ {
+			id := next.Add(1) - 1
+			t := &recs[id]
+			t.pool.Store(0)
+			k := k
+			p0.pool.Submit(func() {
+				t.start.Store(now())
+				t.runs.Add(1)
+				busyStarted.Add(1)
+				<-busyGate
+				// call back into the pool that is (being) shut down
+				p0.pool.IsRunning()
+				p0.pool.PendingTasksCounter.Get()
+				if k%2 == 0 {
+					submit(rand.New(rand.NewSource(cfg.Seed+int64(k))), cfg.Nest) // no further nesting
+				}
+			})
+		}
+		waitQuiescent()
+		// opener: once the controller has entered its first Shutdown (or everything else is over) let the tasks go
+		go func() {
+			for ctrlStage.Load().(string) == "" && !subsDone.Load() {
+				runtime.Gosched()
+			}
+			allBusyAtShutdown.Store(busyStarted.Load() == int64(nw) && ctrlStage.Load().(string) != "")
+			for k := 0; k < 20; k++ {
+				runtime.Gosched()
+			}
+			close(busyGate)
+		}()
+	}
+	var subsLeft atomic.Int64
 	subsLeft.Store(int64(cfg.Submitters))
 	for s := 0; s < cfg.Submitters; s++ {
 		rng := rand.New(rand.NewSource(cfg.Seed*31 + int64(cfg.Run)*131 + int64(s)))
@@ -188,9 +242,7 @@ func runStress(cfg stressCfg) (res stressResult) {
 	}
 	// controller: Shutdown / Wait / Start cycles at seeded submission counts
 	ctrlDone := make(chan struct{})
-	var ctrlStage atomic.Value
 	var ctrlPool atomic.Int32
-	ctrlStage.Store("")
 	crng := rand.New(rand.NewSource(cfg.Seed*53 + int64(cfg.Run)))
 	total := int64(cfg.Submitters * cfg.PerSub)
 	go func() {
@@ -201,6 +253,9 @@ func runStress(cfg stressCfg) (res stressResult) {
 				runtime.Gosched()
 			}
 			pi := crng.Intn(len(pools))
+			if cfg.AllBusy && cy == 0 {
+				pi = 0
+			}
 			p := pools[pi]
 			ctrlPool.Store(int32(pi))
 			ctrlStage.Store("Shutdown")
@@ -364,6 +419,7 @@ func runStress(cfg stressCfg) (res stressResult) {
 	res.Rejected = notRunning.Load()
 	res.Overlap = overlap.Load()
 	res.GrpWaits = grpWaits.Load()
+	res.AllBusyAtShutdown = allBusyAtShutdown.Load()
 	for i := range res.Hits {
 		res.Hits[i] = jit.hits[i].Load()
 	}
